@@ -331,6 +331,14 @@ def ty(e):
             raise IllTyped("reals_var clashes")
         inputs[reals_var] = (dd[0], (bd[0],) + dd[1])
         return Ty(inputs, t.out)
+    if tag == "Al":
+        _, sub, names = e
+        t = ty(sub)
+        if len(set(names)) != len(names) or any(n not in t.inputs for n in names):
+            raise IllTyped("align names")
+        inputs = {n: t.inputs[n] for n in names}
+        inputs.update(t.inputs)
+        return Ty(inputs, t.out)
     if tag == "Ein":
         _, eq, parts = e
         ts = [ty(p) for p in parts]
@@ -535,6 +543,8 @@ def den(e, rho, seed=0):
             v = den(sub, rho2, seed)
             acc = v if acc is None else acc + v
         return acc
+    if tag == "Al":
+        return den(e[1], rho, seed)
     if tag == "Ein":
         _, eq, parts = e
         return np.einsum(eq, *[den(p, rho, seed) for p in parts])
@@ -714,6 +724,8 @@ def build(e, seed=0, arrays=None):
             return Cat(e[1], tuple(go(p) for p in e[2]), e[3])
         if tag == "Ind":
             return Independent(go(e[1]), e[2], e[3], e[4])
+        if tag == "Al":
+            return go(e[1]).align(tuple(e[2]))
         if tag == "Ein":
             return ops.einsum(tuple(go(p) for p in e[2]), e[1])
         if tag == "Fin":
@@ -784,6 +796,8 @@ def code(e):
         return "Cat(%r, (%s,), %r)" % (e[1], ", ".join(code(p) for p in e[2]), e[3])
     if tag == "Ind":
         return "Independent(%s, %r, %r, %r)" % (code(e[1]), e[2], e[3], e[4])
+    if tag == "Al":
+        return "%s.align(%r)" % (code(e[1]), tuple(e[2]))
     if tag == "Ein":
         return "ops.einsum((%s,), %r)" % (", ".join(code(p) for p in e[2]), e[1])
     if tag == "Fin":
@@ -852,7 +866,7 @@ def children(e):
         return (e[3],)
     if tag in ("Stack", "Cat"):
         return tuple(e[2])
-    if tag == "Ind":
+    if tag in ("Ind", "Al"):
         return (e[1],)
     if tag == "Ein":
         return tuple(e[2])
